@@ -6,7 +6,7 @@
 From Coq Require Import NArith List Bool.
 From LV Require Import lib.Bytes lib.Lex lib.SortedMap spec.KvSpec spec.KvOps spec.KvStackSpec
   model.PrefixRange model.Table model.Flushable model.KvStack
-  proofs.FlushableIter proofs.KvStackReads proofs.KvStackWrites proofs.KvStackViews proofs.KvStackRefine proofs.KvExamples.
+  proofs.FlushableIter proofs.KvStackReads proofs.KvStackWrites proofs.KvStackViews proofs.KvStackRefine proofs.KvExamples proofs.KvLive.
 Import ListNotations.
 Local Open Scope N_scope.
 
@@ -30,6 +30,20 @@ Proof. exact flu_iterate_spec. Qed.
 Theorem C22_next_step : forall prefix fuel s, (fit_size s < fuel)%nat -> Inv prefix s ->
   next_ok prefix s (fit_next fuel prefix s).
 Proof. exact fit_next_spec. Qed.
+(* the drain loop never reports out-of-fuel (None) for the fuel the model uses *)
+Theorem C22_collect_total : forall prefix n s, (fit_size s < n)%nat -> Inv prefix s ->
+  fit_collect n prefix s = Some (spec_rest prefix s).
+Proof. exact fit_collect_spec. Qed.
+(* an iterator created at state s and drained later — after reads, snapshots, batch building, other
+   iterators and, over a live-safe stack (one tree-bearing layer above an engine), Flush and
+   DropNotFlushed — yields the (prefix,start)-filter of the view AT s *)
+Theorem C22_live_iterator : forall lsafe ideal r i h P S mid n,
+  wf_st (h_view h (r_store r)) -> wf_bytes (ob P) = true -> Forall (quiet lsafe i) mid ->
+  let r1 := fst (run_op lsafe ideal r (OLit i h P S)) in
+  let r2 := run_state lsafe ideal r1 mid in
+  snd (run_op lsafe ideal r2 (OLNext i n)) =
+    [BLive (Some (firstn n (kv_iterate (view (h_view h (r_store r))) (ob P) (ob S))))].
+Proof. exact live_iterator_stable. Qed.
 (* over any parent stack *)
 Theorem C22_iterate : forall o u P S, wf_st (Flu o u) -> wf_bytes (ob P) = true ->
   st_iter (Flu o u) P S = kv_iterate (merge_overlay o (view u)) (ob P) (ob S).
@@ -65,8 +79,8 @@ Proof. exact nfp_is_distinct_keys. Qed.
    every stack) the model run equals the specification run, in which a flushable is its parent's
    map overlaid with the LOG of writes since the last flush/drop, NotFlushedPairs is the number of
    distinct keys of that log and a snapshot is the map value at the time it was taken *)
-Theorem C22_histories : forall ideal s0 ss0 ops, R s0 ss0 -> Forall op_wf ops ->
-  map erase (run ideal s0 ops) = spec_run ss0 ops.
+Theorem C22_histories : forall lsafe ideal s0 ss0 ops, R s0 ss0 -> Forall op_wf ops ->
+  map erase (run lsafe ideal s0 ops) = spec_run lsafe ss0 ops.
 Proof. exact run_refines. Qed.
 
 (* non-vacuity *)
@@ -78,6 +92,9 @@ Example C22_ex_state :
   st_iter (Flu o u) (Some [255]) None = [([255], [3]); ([255; 255], [])] /\
   st_get (Flu o u) [0] = None /\ st_nfp (Flu o u) = Some 3%nat.
 Proof. vm_compute. repeat split; repeat constructor. Qed.
+Example C22_ex_quiet : quiet true 0 (OFlush 0) /\ quiet true 0 (ODrop 0) /\ quiet true 0 (OSnap h0) /\
+  ~ quiet true 0 (OPut h0 [] []) /\ ~ quiet false 0 (OFlush 0).
+Proof. exact quiet_flush_drop. Qed.
 Example C22_ex_R :
   R (Flu [([0], None); ([97], Some [1])] (Mem [])) (SFlu [WPut [97] [5]; WDel [0]; WPut [97] [1]] (SEng [])).
 Proof. exact ex_R_flu. Qed.
@@ -89,6 +106,8 @@ Print Assumptions C22_get.
 Print Assumptions C22_has.
 Print Assumptions C22_merged_iterator.
 Print Assumptions C22_next_step.
+Print Assumptions C22_collect_total.
+Print Assumptions C22_live_iterator.
 Print Assumptions C22_iterate.
 Print Assumptions C22_write.
 Print Assumptions C22_flush.
